@@ -156,6 +156,35 @@ NameCands(s) ==
                                  [op |-> "set_name", kind |-> g[1], x |-> g[3], val |-> nm[2]],
                                  [op |-> "edif_rt", n |-> 1] >>] :
         <<g, nm>> \in groups \X {pp \in NamePool \X NamePool : pp[1] # pp[2]}}
+(* Verilog scopes: the design follows spydrnet's Verilog conventions (a same-named cable on every port) *)
+VlogInit == << Cnew("N", "n"), Ccreate("NL", 1, "work", 0),
+               Ccreate("LD", 1, "leaf", 0), Ccreate("LD", 1, "mid", 0), Ccreate("LD", 1, "top", 0),
+               Ccreate("DP", 1, "i", 1), Ccreate("DP", 1, "o", 1), Ccreate("DC", 1, "i", 1), Ccreate("DC", 1, "o", 1),
+               Ccreate("DP", 2, "a", 2), Ccreate("DP", 2, "b", 1), Ccreate("DC", 2, "a", 2), Ccreate("DC", 2, "b", 1),
+               Ccreate("DC", 2, "n", 2), Ccreate("DC", 2, "\\<const0>", 1),
+               Ccreate("DP", 3, "t", 1), Ccreate("DP", 3, "u", 2), Ccreate("DC", 3, "t", 1), Ccreate("DC", 3, "u", 2),
+               Ccreate("DC", 3, "m", 3), Ccreate("DC", 3, "\\<const1>", 1),
+               [op |-> "set_dir", x |-> 1, ival |-> 2], [op |-> "set_dir", x |-> 2, ival |-> 3],
+               [op |-> "set_dir", x |-> 3, ival |-> 2], [op |-> "set_dir", x |-> 4, ival |-> 1],
+               [op |-> "set_dir", x |-> 5, ival |-> 2], [op |-> "set_dir", x |-> 6, ival |-> 3],
+               Cconnect(1, IPin(1)), Cconnect(2, IPin(2)),
+               Cconnect(3, IPin(3)), Cconnect(4, IPin(4)), Cconnect(5, IPin(5)),
+               Cconnect(9, IPin(6)), Cconnect(10, IPin(7)), Cconnect(11, IPin(8)),
+               Csettopdef(1, 3), [op |-> "set_name", kind |-> "I", x |-> 1, val |-> "top"],
+               Cchild(2, "l", 1), Cchild(3, "m", 2) >>
+VlogOpts == [order : {"asis", "reversed"}, ansi : BOOLEAN, positional : BOOLEAN, concat : BOOLEAN,
+             escaped : BOOLEAN, comments : BOOLEAN, celldefine : BOOLEAN]
+VlogCands(s, which) ==
+    (IF "vlog_read" \in which THEN {[op |-> "vlog_read", n |-> 1, opts |-> o] : o \in RandomSubset(12, VlogOpts)} ELSE {})
+    \cup (IF "vlog_rt" \in which
+          THEN {[op |-> "seq", calls |-> <<[op |-> "vlog_read", n |-> 1, opts |-> o], [op |-> "vlog_rt", n |-> 2]>>] :
+                   o \in RandomSubset(4, VlogOpts)}
+          ELSE {})
+VlogScope(q) ==
+      [init |-> VlogInit, ops |-> {"b:child", "b:connect", "set_k:I", "set_k:C", "props:I"},
+       max |-> [N |-> 1, L |-> 1, D |-> 3, P |-> 6, C |-> 10, I |-> 6, Q |-> 8, W |-> 14],
+       names |-> {"x", "y"}, vals |-> {}, pos |-> {NoPos}, createN |-> {0},
+       parents |-> {2, 3}, maxKids |-> 3, queries |-> q, walk |-> FALSE]
 EdifOpts == [rename : BOOLEAN, case : {"same", "upper"}, bitorder : {"asc", "desc", "mixed"},
              comments : BOOLEAN, skip_empty : BOOLEAN]
 FmtCands(s, which) ==
@@ -237,7 +266,9 @@ QScope == [init |-> QInit, ops |-> {}, max |-> MaxAll(0), names |-> {}, vals |->
            createN |-> {0}, queries |-> {"C13"}, walk |-> FALSE, sample |-> 3000]
 
 ScopeTable ==
-  [ edif_names |-> [init |-> NameInit, ops |-> {}, max |-> MaxAll(0), names |-> {}, vals |-> {}, pos |-> {NoPos},
+  [ vlog_read |-> VlogScope({"vlog_read"}),
+    vlog_rt |-> VlogScope({"vlog_rt"}),
+    edif_names |-> [init |-> NameInit, ops |-> {}, max |-> MaxAll(0), names |-> {}, vals |-> {}, pos |-> {NoPos},
                     createN |-> {0}, queries |-> {"C17"}, walk |-> FALSE],
     edif_read |-> FmtScope({"edif_read"}),
     edif_rt |-> FmtScope({"edif_rt"}),
@@ -329,6 +360,7 @@ QCands(s) ==
     \cup (IF "C20" \in Queries THEN CompareCands(s) ELSE {})
     \cup FmtCands(s, Queries)
     \cup (IF "C17" \in Queries THEN NameCands(s) ELSE {})
+    \cup VlogCands(s, Queries)
     \cup (IF "C13" \in Queries THEN RandomSubset(Scope.sample * (MaxDepth + 1), QueryProduct(s)) \cup DirectProduct(s) ELSE {})
     \cup (IF "xf2" \in Queries
           THEN StepCands(s) \cup {[op |-> "uniquify", n |-> n] : n \in IdsN(s)}
